@@ -208,6 +208,9 @@ def length_domain_rows(W, pf, construct):
     rd = pf.get("r")
     while rd is not None:
         k, prefix = rd.get("k"), (rd.get("prefix") or {})
+        if k == "lenpref" and not rd.get("range_guards"):
+            yield (True, rd.get("_codec", construct), "reader length guards admit every length (no range guard)", "",
+                   W.codec_loc({"fn": rd.get("_codec", ":"), "line": rd.get("_line", 0)}))
         if k == "lenpref" and rd.get("range_guards"):
             payload = rd.get("payload")
             text = str(payload).startswith("text") or (isinstance(payload, dict) and payload.get("k") == "text")
@@ -268,4 +271,90 @@ def time_writer_domain_rows(ctx):
                      "; ".join(f"the writer raises {'/'.join(g.get('else') or ['?'])} for {v!r}, a duration the sibling reader returns (the reader "
                                f"builds timedelta(milliseconds=n) for every n that fits a timedelta): decode-then-encode fails for it" for v, g in bad),
                      "src/kio/serial/writers.py", f.node.lineno))
+    return rows
+
+
+def scalar_reader_domain_rows(prims):
+    """Every scalar reader accepts every value of its wire format that is representable in the type it converts to: at boundary points
+    of the format (and, for floats, the infinities and NaNs; for 64-bit readers the extremes of datetime.timedelta and datetime), some
+    returning path's conditions hold -- unless the conversion itself is impossible there (the standard library raises OverflowError).
+    Rows: (ok | None, construct, stmt, message, line); None = not decidable here (an analysis limit, never a violation)."""
+    import struct as _struct
+    from ..grammar import eval_value_term, UNKNOWN, TermRaised, domain_points
+    DT_MAX_MS = 253402300799999
+    TD_MAX_MS, TD_MIN_MS = 86399999999999999, -86399999913600000
+    rows = []
+    for name, rec in sorted(prims["readers"].items()):
+        d = rec.get("desc") or {}
+        if d.get("k") != "scalar" or name in ("read_error_code",):
+            continue
+        prefix = d.get("prefix") or {}
+        paths = d.get("guards") or []
+        if prefix.get("k") == "fixed" and prefix.get("fmt") == ">d":
+            pts = [0.0, -0.0, 1.5, -2.5e300, 5e-324, 1.7976931348623157e308, float("inf"), float("-inf"), float("nan"),
+                   _struct.unpack(">d", bytes.fromhex("fff8000000000001"))[0]]
+        elif prefix.get("k") == "fixed" and prefix.get("fmt") == ">?":
+            continue
+        elif prefix.get("k") == "fixed":
+            size = _struct.calcsize(prefix["fmt"])
+            signed = prefix["fmt"][-1].islower()
+            lo, hi = (-(1 << (8 * size - 1)), (1 << (8 * size - 1)) - 1) if signed else (0, (1 << (8 * size)) - 1)
+            if "datetime" in name:
+                lo, hi = 0, DT_MAX_MS
+            pts = domain_points(lo, hi)
+            if size == 8:
+                pts += [p_ for p_ in (TD_MAX_MS, TD_MAX_MS - 86400000, TD_MAX_MS - 1, TD_MIN_MS, TD_MIN_MS + 86400000, (1 << 53) + 1, -(1 << 53) - 1,
+                                      DT_MAX_MS, DT_MAX_MS - 1, DT_MAX_MS - 998, DT_MAX_MS - 999, 999, 1000, 1700000000123) if lo <= p_ <= hi]
+        elif prefix.get("k") == "varint":
+            bits = 32 if prefix.get("max") == 5 else 64
+            pts = domain_points(0, (1 << (bits - 1)) - 1)  # the prefix value before conversion
+        else:
+            continue
+        bad, unknown = [], None
+        for x in pts:
+            try:
+                cv = eval_value_term(d.get("conv"), x)
+            except TermRaised:
+                continue  # not representable: outside the property's domain
+            if cv is UNKNOWN:
+                # the conversion is not in the vocabulary: decide on the guards alone
+                pass
+            accepted = False
+            for conds in paths:
+                ok = True
+                for cond, pol in conds:
+                    if isinstance(cond, (list, tuple)) and cond and cond[0] == "may-raise":
+                        v = False  # the conversion was just evaluated without the library raising
+                        if cv is UNKNOWN:
+                            v = UNKNOWN
+                    else:
+                        try:
+                            v = eval_value_term(cond, x)
+                        except TermRaised:
+                            v = UNKNOWN
+                    if v is UNKNOWN:
+                        unknown = (x, cond)
+                        ok = None
+                        break
+                    if bool(v) != bool(pol):
+                        ok = False
+                        break
+                if ok is None:
+                    accepted = None
+                    break
+                if ok:
+                    accepted = True
+                    break
+            if accepted is False:
+                bad.append(x)
+        construct = f"kio.serial.readers:{name}"
+        stmt = f"{name}: {len(paths)} returning path(s), raises {d.get('raises') or []}"
+        if bad:
+            rows.append((False, construct, stmt,
+                         f"the reader raises {'/'.join(d.get('raises') or ['?'])} for the wire value(s) {bad[:4]!r}, which the format carries and the "
+                         f"Python type represents: a canonical encoding holding one is not decoded (and so not reproduced)", rec.get("line", 0)))
+        elif unknown is not None:
+            rows.append((None, construct, stmt, f"condition {unknown[1]!r} not decidable at {unknown[0]!r}", rec.get("line", 0)))
+        else:
+            rows.append((True, construct, stmt, "", rec.get("line", 0)))
     return rows
